@@ -126,6 +126,16 @@ structure Opts where
   sid : U64 := 1
 deriving Repr
 
+/-- ghost record of one `id.Message++`: the message id handed out, the kind and payload of the message,
+    the frames it is cut into, and the call that started it -/
+structure Started where
+  mid : U64
+  kind : Byte
+  data : Bytes
+  frames : List Frame
+  call : Call
+deriving Repr
+
 structure Sh where
   -- signals
   send : Option Err := none
@@ -159,6 +169,9 @@ structure Sh where
   failed : Bool := false              -- some transport write has returned an error
   putLog : List Bytes := []           -- payloads stored into the packet buffer by `Put`, in order
   getLog : List Bytes := []           -- payloads handed out by `Get`, in order
+  started : List Started := []        -- one record per `id.Message++`, in order
+  sendRets : List (Tid × U64 × Ret × Bool) := []   -- results of the send sections (MsgSend / RawWrite) at
+                                      -- `write.Unlock`: thread, message id, result, "ended with rawFlushLocked"
 deriving Repr
 
 structure St where
@@ -275,14 +288,18 @@ def stepPC (s : St) (t : Tid) : PC → Option St
     | .msgSend _ _ => some (s.upd t { s.sh with wHeld := true } (.marshal c sec))
     | .rawWrite k d =>
       let mid' := s.sh.mid + 1
-      some (s.upd t { s.sh with wHeld := true, mid := mid', midN := s.sh.midN + 1 } (.frame { sec with frames := framesOf s.opts mid' k d }))
+      some (s.upd t { s.sh with wHeld := true, mid := mid', midN := s.sh.midN + 1,
+                                started := s.sh.started ++ [⟨mid', k, d, framesOf s.opts mid' k d, c⟩] }
+        (.frame { sec with frames := framesOf s.opts mid' k d }))
     | _ => some (s.upd t { s.sh with wHeld := true } (.flush sec))
   | .marshal c sec =>
     match c with
     | .msgSend d park =>
       if park then none else
       let mid' := s.sh.mid + 1
-      some (s.upd t { s.sh with mid := mid', midN := s.sh.midN + 1 } (.frame { sec with frames := framesOf s.opts mid' kindMessage d }))
+      some (s.upd t { s.sh with mid := mid', midN := s.sh.midN + 1,
+                                started := s.sh.started ++ [⟨mid', kindMessage, d, framesOf s.opts mid' kindMessage d, c⟩] }
+        (.frame { sec with frames := framesOf s.opts mid' kindMessage d }))
     | _ => none
   -- s.mu
   | .lockMu c => if s.sh.mu.isSome then none else some (s.upd t { s.sh with mu := some t } (.chkTerm c))
@@ -344,7 +361,9 @@ def stepPC (s : St) (t : Tid) : PC → Option St
   | .unlockMu c =>
     -- s.mu.Unlock(); then sendPacketLocked: newFrameLocked (mid++) under the write lock
     let mid' := s.sh.mid + 1
-    some (s.upd t { s.sh with mu := none, mid := mid', midN := s.sh.midN + 1 }
+    some (s.upd t { s.sh with mu := none, mid := mid', midN := s.sh.midN + 1,
+                              started := s.sh.started ++ [⟨mid', (packetOf s.opts mid' c).kind, (packetOf s.opts mid' c).data,
+                                                          [packetOf s.opts mid' c], c⟩] }
       (.frame { frames := [packetOf s.opts mid' c], checks := false, flush := .unchecked, recvAfter := none }))
   -- write section
   | .frame sec =>
@@ -376,7 +395,9 @@ def stepPC (s : St) (t : Tid) : PC → Option St
       else some (s.upd t { s.sh with wbuf := [], inflight := some (t, s.sh.wbuf) } (.writing sec true))
   | .ret sec r => some (s.upd t { s.sh with wHeld := false } (.unlockW sec r))     -- deferred Unlock: held := 0 …
   | .unlockW sec r =>                                                            -- … Mutex.Unlock
-    some (s.upd t { s.sh with w := none }
+    some (s.upd t { s.sh with w := none,
+                              sendRets := if sec.checks then s.sh.sendRets ++ [(t, s.sh.mid, r, decide (sec.flush = .checked))]
+                                          else s.sh.sendRets }
       (match sec.recvAfter with
        | none => .cf1 (.ret r)
        -- checkRecvFlush: a flush refused/failed on a terminated stream does not pre-empt the receive
